@@ -16,6 +16,11 @@ import (
 
 const maxInlineDepth = 6
 
+type callRes struct {
+	pc  string
+	val *Val
+}
+
 type deferRec struct {
 	instr *ssa.Defer
 	flag  string
@@ -74,6 +79,7 @@ type Frame struct {
 	extraEnsures  []*Clause
 	extraModifies []string
 	atHits        map[*AtAssert]int
+	callResults   map[string][]callRes
 	loopFrames    map[*ssa.BasicBlock][]loopFrame
 	targets       map[string][]modTarget
 }
@@ -84,7 +90,7 @@ func (e *Enc) newFrame(fn *ssa.Function, parent *Frame) *Frame {
 		out: map[*ssa.BasicBlock]*State{}, edge: map[[2]int]*State{}, derefOK: map[ssa.Value]*ssa.BasicBlock{},
 		env: map[string]*Val{}, parent: parent, phiHav: map[*ssa.Phi]string{}, invCtx: map[*ssa.BasicBlock]map[string]*Val{},
 		decr0: map[*ssa.BasicBlock]string{}, unshared: map[string]bool{}, cellMeta: map[string]*Val{}, boxed: map[string]*Val{},
-		rangeSrc: map[*ssa.Range]ssa.Value{}, seenComp: map[*ssa.Range]string{}, specVars: map[string]*Val{}, atHits: map[*AtAssert]int{}}
+		rangeSrc: map[*ssa.Range]ssa.Value{}, seenComp: map[*ssa.Range]string{}, specVars: map[string]*Val{}, atHits: map[*AtAssert]int{}, callResults: map[string][]callRes{}}
 	if parent != nil {
 		fr.depth = parent.depth + 1
 	}
@@ -589,6 +595,10 @@ func (e *Enc) fpFun(structKey, field string) string {
 	if !e.declared[n] {
 		e.declared[n] = true
 		e.declRaw(fmt.Sprintf("(declare-fun %s (Int) Int)", n))
+		// interior pointers are injective in their base object and never collide with object references
+		e.declRaw(fmt.Sprintf("(declare-fun %s_inv (Int) Int)", n))
+		e.declRaw(fmt.Sprintf("(assert (forall ((r Int)) (! (and (= (%s_inv (%s r)) r) (< (%s r) 0)) :pattern ((%s r)))))", n, n, n, n))
+		e.fpFuns = append(e.fpFuns, n)
 	}
 	return n
 }
